@@ -1,27 +1,25 @@
-"""C03 - inbound application messages reach the application in order, exactly once.
-Family "seq" of Session.tla; monitors C03_* of Monitors.tla on traces of the real engine."""
+"""C03 - a ResendRequest is answered by an exact, contiguous, well-formed replay.
+Family "resend" of Session.tla; monitors C03_*."""
 from lib import common, sessfam
 
 LEVEL = 'model_checking'
 PID = 'C03'
 FAMILY = 'resend'
 PROPS = ['P_C03']
+BASE = [{'role': 'acc', 'bs': 42}, {'role': 'acc', 'bs': 42, 'persist': False}]
+ALT = [{'role': 'init', 'bs': 44}, {'role': 'acc', 'bs': 40}, {'role': 'init', 'bs': 41, 'persist': False}, {'role': 'acc', 'bs': 50}, {'role': 'init', 'bs': 42}]
 
 
 def configs(ctx):
-    quick = ctx.tier == 'quick'
-    base = [dict(role='acc', bs=42, chunk=0), dict(role='acc', bs=42, chunk=2)]
-    alt = [dict(role='init', bs=44, chunk=0), dict(role='init', bs=40, chunk=2), dict(role='acc', bs=41, chunk=1),
-           dict(role='init', bs=50, chunk=0), dict(role='acc', bs=44, chunk=3), dict(role='init', bs=42, chunk=1)]
-    if quick:
-        return base + [alt[ctx.seed % len(alt)]]
-    return base + alt
+    if ctx.tier == 'quick':
+        return BASE + [ALT[(ctx.seed + i) % len(ALT)] for i in range(min(2, len(ALT)))]
+    return BASE + ALT
 
 
 def run(ctx):
-    sessfam.standard_run(ctx, PID, FAMILY, PROPS, configs(ctx),
-                         quick_budget=15000, thorough_budget=250000,
-                         statement='FromApp order / at-expected / advance-by-one / monotone counter')
+    sessfam.standard_run(ctx, PID, FAMILY, PROPS, configs(ctx), quick_budget=15000, thorough_budget=250000,
+                         quick_bounds={'maxIn': 4, 'maxOut': 5, 'maxEp': 1}, thorough_bounds={'maxIn': 4, 'maxOut': 6, 'maxEp': 1},
+                         statement='replay run all PossDup, coverage exactly [b, min(e,last)], replays intact under their own number, gap fills for the rest')
 
 
 def replay(ctx, path):
